@@ -446,13 +446,11 @@ class Evaluator:
             self.e(v)
         elif isinstance(st, (ast.For, ast.AsyncFor)):
             self.bind_iter(st.target, st.iter)
-            for _ in range(2):  # loop-carried accumulators reach their unit on the second pass
-                self.run(st.body)
+            self.run(st.body)
             self.run(st.orelse)
         elif isinstance(st, ast.While):
             self.e(st.test)
-            for _ in range(2):
-                self.run(st.body)
+            self.run(st.body)
             self.run(st.orelse)
         elif isinstance(st, ast.If):
             self.e(st.test)
@@ -462,6 +460,13 @@ class Evaluator:
             self.env = dict(before)
             self.run(st.orelse)
             b = self.env
+            zb = _zero_branch(st.test)
+            if zb == "body" and st.orelse:
+                self.env = b
+                return
+            if zb == "orelse" and st.orelse:
+                self.env = a
+                return
             out = {}
             for k in set(a) | set(b):
                 if k in a and k in b:
@@ -487,6 +492,20 @@ class Evaluator:
             pass
         elif isinstance(st, ast.Delete):
             pass
+
+
+def _zero_branch(test):
+    """Which branch of `if test:` is the degenerate one where a quantity is exactly zero (all results there are
+    zeros whatever their unit): 'body' for `x == 0` / `not x`, 'orelse' for `x != 0` / `x`; None otherwise."""
+    if isinstance(test, ast.Compare) and len(test.ops) == 1 and isinstance(test.comparators[0], ast.Constant) and test.comparators[0].value in (0, 0.0) \
+            and isinstance(test.left, (ast.Name, ast.Attribute)):
+        if isinstance(test.ops[0], ast.Eq):
+            return "body"
+        if isinstance(test.ops[0], ast.NotEq):
+            return "orelse"
+    if isinstance(test, ast.UnaryOp) and isinstance(test.op, ast.Not) and isinstance(test.operand, ast.Name):
+        return "body"
+    return None
 
 
 def analyze(fnode, law: Law, env=None, sink_names=()):
